@@ -1,9 +1,45 @@
+// Command vcheck hosts every check engine of /verif. Usage: vcheck <property> <quick|thorough>.
 package main
 
 import (
-	_ "github.com/anishathalye/porcupine"
-	_ "github.com/matryer/moq/pkg/moq"
-	_ "golang.org/x/tools/go/packages"
+	"fmt"
+	"os"
 )
 
-func main() {}
+type checkFn func(prop, tier string) int
+
+var registry = map[string]checkFn{}
+
+func main() {
+	if len(os.Args) < 3 {
+		fmt.Fprintln(os.Stderr, "usage: vcheck <property> <quick|thorough>   |   vcheck replay <dir>")
+		os.Exit(3)
+	}
+	prop, tier := os.Args[1], os.Args[2]
+	if prop == "replay" {
+		os.Exit(replay(os.Args[2]))
+	}
+	if tier != "quick" && tier != "thorough" {
+		fmt.Fprintln(os.Stderr, "tier must be quick or thorough")
+		os.Exit(3)
+	}
+	fn, ok := registry[prop]
+	if !ok {
+		fmt.Fprintf(os.Stderr, "no check registered for %s\n", prop)
+		os.Exit(3)
+	}
+	os.Exit(fn(prop, tier))
+}
+
+func replay(dir string) int {
+	b, err := os.ReadFile(dir + "/WHAT.txt")
+	if err != nil {
+		fmt.Fprintln(os.Stderr, err)
+		return 3
+	}
+	fmt.Printf("replay material in %s:\n%s", dir, b)
+	if cmd, err := os.ReadFile(dir + "/REPLAY.sh"); err == nil {
+		fmt.Printf("run: sh %s/REPLAY.sh\n%s", dir, cmd)
+	}
+	return 0
+}
